@@ -159,23 +159,22 @@ class _Outliner(ast.NodeTransformer):
                     and st.target.id not in plain and isinstance(st.op, (ast.Add, ast.Mult)):
                 reds[st.target.id] = "+" if isinstance(st.op, ast.Add) else "*"
 
-        class _Red(ast.NodeTransformer):
-            def visit_AugAssign(s, st):
-                if isinstance(st.target, ast.Name) and st.target.id in reds:
-                    return ast.Expr(ast.Call(
-                        func=ast.Attribute(ast.Name("__SIM__", ast.Load()), "red", ast.Load()),
-                        args=[ast.Constant(st.target.id), ast.Constant(reds[st.target.id]), st.value], keywords=[]))
-                return st
-
-        body = [_Red().visit(b) for b in node.body]
+        # numba semantics of a scalar reduction: every thread works on a PRIVATE copy that starts at
+        # the identity (0 for +, 1 for *) and the copies are combined at the join.  The body keeps its
+        # `x op= e` on a local; reads of x inside the body therefore see the thread's partial value
+        # (which is what makes a loop-carried use of such a variable schedule dependent).
+        body = list(node.body)
         # any other name bound outside and assigned in BODY is private (numba semantics);
         # names only *read* in BODY are closure reads of the enclosing frame.
         inner = ast.For(target=node.target,
                         iter=ast.Call(func=ast.Name("range", ast.Load()), args=[ast.Name("__lo", ast.Load()), ast.Name("__hi", ast.Load())], keywords=[]),
                         body=body, orelse=[])
+        pre = [ast.Assign(targets=[ast.Name(v, ast.Store())], value=ast.Constant(0 if op == "+" else 1)) for v, op in reds.items()]
+        post = [ast.Expr(ast.Call(func=ast.Attribute(ast.Name("__SIM__", ast.Load()), "red", ast.Load()),
+                                  args=[ast.Constant(v), ast.Constant(op), ast.Name(v, ast.Load())], keywords=[])) for v, op in reds.items()]
         fdef = ast.FunctionDef(name=name,
                                args=ast.arguments(posonlyargs=[], args=[ast.arg("__lo"), ast.arg("__hi")], kwonlyargs=[], kw_defaults=[], defaults=[]),
-                               body=[inner], decorator_list=[], type_params=[])
+                               body=pre + [inner] + post, decorator_list=[], type_params=[])
         call = ast.Expr(ast.Call(func=ast.Attribute(ast.Name("__SIM__", ast.Load()), "parfor", ast.Load()),
                                  args=[it.args[0], ast.Name(name, ast.Load())], keywords=[]))
         out = [fdef, call]
